@@ -169,6 +169,17 @@ func checkC05(c *core.Ctx) {
 		if rf.Spec.Kind == genfacts.ClsStruct {
 			gr.checkMakeWrappers(rf)
 		}
+		// R6: the limiter is sized by the length prefix: it bounds exactly one
+		// record only if the prefix the encoder wrote (Size()-K) is exact
+		if sz, sw := rf.M[mSZ], rf.M[mSW]; sz.Present && sw.Present && rf.Spec.Kind != genfacts.ClsStruct {
+			want := wire.SzString(normSzTop(wire.SizeOf(sw.Items)))
+			got := wire.SzString(normSzTop(sz.Size))
+			msg := ""
+			if got != want {
+				msg = fmt.Sprintf("Size() computes %s but EncodeBebop writes %s: the prefix overstates or understates the body, so Drain swallows the start of the next record or leaves the tail of this one — %s", got, want, rf.where(sz.Decl.Pos()))
+			}
+			c.Check("R6", "the length prefix bounds exactly the record: Size vs EncodeBebop "+bodyKeyAll(rf), anchorPos(gr.p, rf.Spec.Kind, mSZ), got == want, msg)
+		}
 	}
 	gr.sample(2)
 }
